@@ -15,7 +15,7 @@ import (
 func init() {
 	register("C54", c54)
 	meta("C54", Meta{
-		Text:      "Thin structural claim for gno fmt's meaning preservation: in gnovm/pkg/gnofmt (1) no statement stores into a field of a go/ast node and no go/ast or astutil function that rewrites a tree is called, except astutil.AddImport / DeleteImport / DeleteNamedImport, which are called only from cleanupPreviousImports and resolve; (2) both import-deletion calls are reachable only on the not-found branch of the `unresolved[name]` lookup, so an import whose name is still referenced is never removed, and a blank import is never treated as a named one; (3) the file handed to the printer is parsed with comments and with object resolution (file.Unresolved drives import pruning: without it every import would be deleted); (4) formatNode prints the same *ast.File it was given with the Processor's FileSet and post-processes with go/imports in FormatOnly mode with comments kept; (5) every Format* entry point returns what formatNode produced. Level 'other'.",
+		Text:      "Thin structural claim for gno fmt's meaning preservation: in gnovm/pkg/gnofmt (1) no statement stores into a field of a go/ast node and no go/ast or astutil function that rewrites a tree is called, except astutil.AddImport / DeleteImport / DeleteNamedImport, which are called only from cleanupPreviousImports and resolve or private helpers reachable only from them; (2) both import-deletion calls are reachable only on the not-found branch of the `unresolved[name]` lookup, so an import whose name is still referenced is never removed, and a blank import is never treated as a named one; (3) the file handed to the printer is parsed with comments and with object resolution (file.Unresolved drives import pruning: without it every import would be deleted); (4) formatNode prints the same *ast.File it was given with the Processor's FileSet and post-processes with go/imports in FormatOnly mode with comments kept; (5) every exported function returning ([]byte, error) returns the output of the function that runs go/imports (through any chain of private helpers). Rules follow extracted helpers, helper parameters, single-definition locals and named constants rather than one statement shape. Level 'other'.",
 		Note:      "Not covered: idempotence (format(format(x)) == format(x)), go/printer and go/imports themselves, the order in which resolve adds imports (it ranges over a map; the final go/imports sort is relied on), the resolver's choice among candidate packages, FormatFile's documented cross-file declaration pooling.",
 		Technique: "AST store scan on go/ast-typed fields, R-WHO on tree-rewriting callees, go/cfg gate on the deletion sites, constant-flag inspection of parser/imports options, value-origin of returned bytes",
 		Ref:       "DESIGN.md §2 C54",
@@ -116,151 +116,201 @@ func c54(c *engine.Ctx) {
 		c54Astutil + ".Imports": true, c54Astutil + ".UsesImport": true, c54Astutil + ".PathEnclosingInterval": true, c54Astutil + ".NodeDescription": true, c54Astutil + ".Unparen": true,
 		"go/ast.Inspect": true, "go/ast.Walk": true, "go/ast.IsExported": true, "go/ast.Print": true, "go/ast.Fprint": true, "go/ast.Preorder": true, "go/ast.Unparen": true, "go/ast.IsGenerated": true, "go/ast.NewIdent": true, "go/ast.NewScope": true, "go/ast.NewCommentMap": true,
 	}
-	nMut := 0
-	for _, f := range fns {
-		for _, s := range f.Calls() {
-			n := s.CalleeName()
-			if !(strings.HasPrefix(n, c54Astutil+".") || strings.HasPrefix(n, "go/ast.")) || strings.Contains(n, ").") {
-				continue
-			}
-			if readOnly[n] {
-				continue
-			}
-			nMut++
-			root := f.Root().Name
-			okCaller := root == c54Pkg+".(*Processor).cleanupPreviousImports" || root == c54Pkg+".(*Processor).resolve"
-			c.Check("ast-mutators", root+" → "+n, s.Pos(), allowed[n] && okCaller, "only astutil.AddImport/DeleteImport/DeleteNamedImport may rewrite the tree, and only from cleanupPreviousImports/resolve")
+	allowedRoots := []string{c54Pkg + ".(*Processor).cleanupPreviousImports", c54Pkg + ".(*Processor).resolve"}
+	mutRefs := p.RefsTo(func(o types.Object) bool {
+		f, ok := o.(*types.Func)
+		if !ok || f.Pkg() == nil {
+			return false
 		}
+		n := engine.FuncName(f)
+		return (strings.HasPrefix(n, c54Astutil+".") || strings.HasPrefix(n, "go/ast.")) && !strings.Contains(n, ").") && !readOnly[n]
+	})
+	unexpected := p.UnexpectedCallers(mutRefs, allowedRoots) // closed under private helpers of the two allowed functions
+	nMut := 0
+	for _, r := range mutRefs {
+		n := engine.FuncName(r.Fn.Info().Uses[r.Ident].(*types.Func))
+		nMut++
+		root := "<package-level>"
+		if r.Fn != nil {
+			root = r.Fn.Root().Name
+		}
+		bad := false
+		for _, u := range unexpected {
+			if u == root {
+				bad = true
+			}
+		}
+		c.Check("ast-mutators", n+" from "+root, r.Ident.Pos(), allowed[n] && !bad && r.IsCall, "only astutil.AddImport/DeleteImport/DeleteNamedImport may rewrite the tree, and only from cleanupPreviousImports/resolve or their private helpers")
 	}
 	c.Floor("ast-mutators", nMut, 3)
 
-	// (2) deletion guard
+	// (2) deletion guard — facts that hold at the (possibly helper-wrapped) deletion sites
 	if f := c.MustFunc(c54Pkg + ".(*Processor).cleanupPreviousImports"); f != nil {
-		info := f.Info()
-		g := f.Graph()
-		unres := paramObj(f, 2)
-		dels := f.CallsTo(c54Astutil+".DeleteImport", c54Astutil+".DeleteNamedImport")
+		dels := f.DeepCallsTo(2, c54Astutil+".DeleteImport", c54Astutil+".DeleteNamedImport")
 		c.Floor("import-deletion-guard", len(dels), 2)
-		// `name` variable looked up in unresolved
 		for _, d := range dels {
-			ok, why := false, "deletion is not confined to the not-found branch of `_, ok := unresolved[name]`"
-			for _, gt := range g.Gates(d) {
-				id, isId := ast.Unparen(gt.Cond).(*ast.Ident)
-				if !isId || gt.OnTrue {
+			notFound, notBlank := false, false
+			for _, gt := range d.DeepGates() {
+				gf := p.EnclosingFn(f.Pkg.PkgPath, gt.Cond.Pos())
+				if gf == nil {
 					continue
 				}
-				okObj := info.ObjectOf(id)
-				// okObj defined by a comma-ok index of the unresolved map
-				engine.InspectBody(f, func(n ast.Node) {
-					as, isAs := n.(*ast.AssignStmt)
-					if !isAs || len(as.Lhs) != 2 || len(as.Rhs) != 1 || engine.ObjOf(info, as.Lhs[1]) != okObj {
-						return
+				for _, fact := range c54FactsDeep(d, gf, gt.Full(), gt.OnTrue, 3) {
+					if !fact.pos && c54IsMapLookupOK(fact.fn, fact.e) {
+						notFound = true
 					}
-					ix, isIx := ast.Unparen(as.Rhs[0]).(*ast.IndexExpr)
-					if isIx && engine.ObjOf(info, ix.X) == unres && unres != nil {
-						ok, why = true, "deletion only when the import's name is not among the unresolved (still referenced) identifiers"
-					}
-				})
-			}
-			c.Check("import-deletion-guard", f.Name+" → "+d.CalleeName(), d.Pos(), ok, why)
-		}
-		// named-import test must exclude the blank identifier
-		found := false
-		engine.InspectBody(f, func(n ast.Node) {
-			as, isAs := n.(*ast.AssignStmt)
-			if !isAs || len(as.Lhs) != 1 || len(as.Rhs) != 1 {
-				return
-			}
-			if id, isId := as.Lhs[0].(*ast.Ident); !isId || id.Name != "isNamedImport" {
-				return
-			}
-			found = true
-			hasNil, hasBlank := false, false
-			for _, cj := range engine.Conjuncts(as.Rhs[0], token.LAND) {
-				b, isB := ast.Unparen(cj).(*ast.BinaryExpr)
-				if !isB || b.Op != token.NEQ {
-					continue
-				}
-				if isNil(b.Y) {
-					hasNil = true
-				}
-				if tv, isC := info.Types[b.Y]; isC && tv.Value != nil && tv.Value.ExactString() == `"_"` {
-					hasBlank = true
-				}
-			}
-			c.Check("import-deletion-guard", f.Name+" named-import test", as.Pos(), hasNil && hasBlank, "`_` imports must not count as named imports (their name would be looked up and the side-effect import deleted)")
-		})
-		if !found {
-			c.Undecided("import-deletion-guard", f.Name+" named-import test", "isNamedImport not found")
-		}
-	}
-
-	// (3) parse mode of the file that gets formatted
-	if f := c.MustFunc(c54Pkg + ".(*Processor).parseFile"); f != nil {
-		calls := f.CallsTo("go/parser.ParseFile")
-		c.Floor("parse-mode", len(calls), 1)
-		for _, s := range calls {
-			why := ""
-			if len(s.Call.Args) != 4 {
-				why = "unexpected ParseFile arity"
-			} else {
-				mode := s.Call.Args[3]
-				names := map[string]bool{}
-				ast.Inspect(mode, func(n ast.Node) bool {
-					if se, ok := n.(*ast.SelectorExpr); ok {
-						if k, ok := f.Info().Uses[se.Sel].(*types.Const); ok && k.Pkg() != nil && k.Pkg().Path() == "go/parser" {
-							names[k.Name()] = true
+					if fact.pos {
+						if b, ok := ast.Unparen(fact.e).(*ast.BinaryExpr); ok && b.Op == token.NEQ {
+							for _, side := range []ast.Expr{b.X, b.Y} {
+								if tv, isC := fact.fn.Info().Types[side]; isC && tv.Value != nil && tv.Value.ExactString() == `"_"` {
+									notBlank = true
+								}
+							}
 						}
 					}
-					return true
-				})
-				if tv, ok := f.Info().Types[mode]; !ok || tv.Value == nil {
-					why = "parser mode is not a constant"
-				}
-				if !names["ParseComments"] {
-					why = "ParseComments missing: the printer would drop every comment and directive"
-				}
-				for _, badm := range []string{"SkipObjectResolution", "ImportsOnly", "PackageClauseOnly"} {
-					if names[badm] {
-						why = badm + " set: file.Unresolved/declarations are incomplete, so import pruning deletes imports that are in use"
-					}
-				}
-				if fs := engine.ExprString(s.Call.Args[0]); fs != "p.fset" {
-					why = "file is not registered in the Processor's FileSet (" + fs + ")"
 				}
 			}
-			c.Check("parse-mode", f.Name, s.Pos(), why == "", why)
+			callee := d.Inner.CalleeName()
+			c.Check("import-deletion-guard", f.Name+" → "+callee, d.Inner.Pos(), notFound, "an import may be deleted only on the not-found side of the lookup of its name among the still-referenced (unresolved) identifiers")
+			if callee == c54Astutil+".DeleteNamedImport" {
+				c.Check("import-deletion-guard", f.Name+" → "+callee+" excludes blank imports", d.Inner.Pos(), notBlank, "`_` imports must not count as named imports (their name would be looked up and the side-effect import deleted)")
+			}
 		}
 	}
 
-	// (4) formatNode
-	if f := c.MustFunc(c54Pkg + ".(*Processor).formatNode"); f != nil {
-		info := f.Info()
-		fileParam := paramObj(f, 0)
-		prints := f.CallsTo("go/printer.Fprint")
-		procs := f.CallsTo("golang.org/x/tools/imports.Process")
-		c.Floor("print-path", len(prints)+len(procs), 2)
-		var buf types.Object
-		for _, s := range prints {
-			ok := len(s.Call.Args) == 3 && engine.ObjOf(info, s.Call.Args[2]) == fileParam && engine.ExprString(s.Call.Args[1]) == "p.fset"
-			if u, isU := ast.Unparen(s.Call.Args[0]).(*ast.UnaryExpr); isU && u.Op == token.AND {
-				buf = engine.ObjOf(info, u.X)
+	// (3) parse mode: a file that may be formatted is parsed in full, with comments and object resolution
+	{
+		modeBit := func(name string) int64 {
+			if pk := p.ByPath["go/parser"]; pk != nil {
+				if k, ok := pk.Types.Scope().Lookup(name).(*types.Const); ok {
+					if v, ok := ceConstInt(k); ok {
+						return v
+					}
+				}
 			}
-			c.Check("print-path", f.Name+" printer.Fprint", s.Pos(), ok && buf != nil, "must print the *ast.File it was given, with the FileSet the file was parsed in")
+			return 0
 		}
-		for _, s := range procs {
-			ok := len(s.Call.Args) == 3 && buf != nil && engine.Mentions(info, s.Call.Args[1], buf)
-			if len(prints) == 1 && ok {
-				ok = f.Graph().Dominates(prints[0], s)
+		nParse, nFull := 0, 0
+		for _, f := range fns {
+			info := f.Info()
+			for _, s := range f.CallsTo("go/parser.ParseFile") {
+				nParse++
+				if len(s.Call.Args) != 4 {
+					c.Check("parse-mode", f.Root().Name, s.Pos(), false, "unexpected ParseFile arity")
+					continue
+				}
+				mv, isC := ceIntConst(info, s.Call.Args[3])
+				if !isC {
+					c.Check("parse-mode", f.Root().Name, s.Pos(), false, "parser mode is not a constant")
+					continue
+				}
+				partial := mv&(modeBit("PackageClauseOnly")|modeBit("ImportsOnly")) != 0
+				why := ""
+				if partial {
+					// a partial parse must never reach the printer: its result is used for its package name only
+					as, ok := s.Top.(*ast.AssignStmt)
+					if !ok || len(as.Lhs) < 1 {
+						why = "partially parsed file is not bound to a local"
+					} else {
+						fo := engine.ObjOf(info, as.Lhs[0])
+						ast.Inspect(f.Root().Body, func(n ast.Node) bool {
+							if se, ok := n.(*ast.SelectorExpr); ok {
+								if id, ok := se.X.(*ast.Ident); ok && info.ObjectOf(id) == fo {
+									if se.Sel.Name != "Name" {
+										why = "partially parsed file is used beyond its package name (." + se.Sel.Name + ")"
+									}
+									return false
+								}
+							}
+							if id, ok := n.(*ast.Ident); ok && info.Uses[id] == fo {
+								why = "partially parsed file escapes (it could be formatted with its declarations missing)"
+							}
+							return true
+						})
+					}
+				} else {
+					nFull++
+					if mv&modeBit("ParseComments") == 0 {
+						why = "ParseComments missing: the printer would drop every comment and directive"
+					}
+					if mv&modeBit("SkipObjectResolution") != 0 {
+						why = "SkipObjectResolution set: file.Unresolved is empty, so import pruning deletes imports that are in use"
+					}
+					if !c54IsProcessorFset(p, f, s.Call.Args[0]) {
+						why = "file is not registered in the Processor's FileSet (" + engine.ExprString(s.Call.Args[0]) + ")"
+					}
+				}
+				c.Check("parse-mode", f.Root().Name, s.Pos(), why == "", why)
 			}
-			c.Check("print-path", f.Name+" imports.Process input", s.Pos(), ok, "go/imports must receive the bytes just printed")
-			// options
+		}
+		c.Floor("parse-mode", nFull, 1)
+		_ = nParse
+	}
+
+	// (4) print path: wherever go/imports post-processes, it gets the bytes just printed from the
+	// given file, in FormatOnly mode with comments kept, and its output is what is returned
+	isFprint := func(n string) bool { return n == "go/printer.Fprint" || n == "go/printer.(*Config).Fprint" }
+	formatters := map[*engine.Fn]bool{} // functions that call imports.Process
+	nProc := 0
+	for _, f := range fns {
+		info := f.Info()
+		for _, s := range f.CallsTo("golang.org/x/tools/imports.Process") {
+			nProc++
+			formatters[f.Root()] = true
+			name := f.Root().Name
+			if len(s.Call.Args) != 3 {
+				c.Check("print-path", name+" imports.Process input", s.Pos(), false, "unexpected arity")
+				continue
+			}
+			// printed bytes
+			inputOK, why := false, "go/imports must receive the bytes just printed from the parsed file"
+			for _, d := range f.DeepFind(2, func(fn *engine.Fn, n ast.Node) bool {
+				call, ok := n.(*ast.CallExpr)
+				return ok && isFprint(ceCallName(fn.Info(), call))
+			}) {
+				if !f.Graph().Dominates(d.Outer, s) {
+					continue
+				}
+				in := d.Inner
+				ii := in.Fn.Info()
+				if len(in.Call.Args) != 3 {
+					continue
+				}
+				// the node printed is an *ast.File parameter of the printing function, with the Processor's FileSet
+				nodeObj := engine.ObjOf(ii, in.Call.Args[2])
+				isParam := false
+				for k := 0; ; k++ {
+					po := paramObj(in.Fn.Root(), k)
+					if po == nil {
+						break
+					}
+					if po == nodeObj {
+						isParam = true
+					}
+				}
+				if !isParam || !c54IsProcessorFset(p, in.Fn, in.Call.Args[1]) {
+					why = "the printer must print the *ast.File it was given, with the FileSet the file was parsed in"
+					continue
+				}
+				if d.Inner == d.Outer {
+					if u, isU := ast.Unparen(in.Call.Args[0]).(*ast.UnaryExpr); isU && u.Op == token.AND {
+						if buf := engine.ObjOf(info, u.X); buf != nil && engine.Mentions(info, s.Call.Args[1], buf) {
+							inputOK = true
+						}
+					}
+				} else if as, isAs := d.Outer.Top.(*ast.AssignStmt); isAs && len(as.Lhs) >= 1 {
+					if v := engine.ObjOf(info, as.Lhs[0]); v != nil && engine.Mentions(info, s.Call.Args[1], v) {
+						inputOK = true
+					}
+				}
+			}
+			c.Check("print-path", name+" imports.Process input", s.Pos(), inputOK, why)
 			opts := map[string]string{}
-			ast.Inspect(s.Call.Args[2], func(n ast.Node) bool {
+			ast.Inspect(c54Resolve(p, f, s.Call.Args[2], 3), func(n ast.Node) bool {
 				if kv, isKV := n.(*ast.KeyValueExpr); isKV {
 					if id, isId := kv.Key.(*ast.Ident); isId {
-						if tv, isC := info.Types[kv.Value]; isC && tv.Value != nil {
-							opts[id.Name] = tv.Value.ExactString()
+						if v, isC := ceBoolConstAnywhere(p, kv.Value); isC {
+							opts[id.Name] = v
 						} else {
 							opts[id.Name] = "?"
 						}
@@ -268,69 +318,332 @@ func c54(c *engine.Ctx) {
 				}
 				return true
 			})
-			c.Check("print-path", f.Name+" FormatOnly", s.Pos(), opts["FormatOnly"] == "true", "go/imports must run in FormatOnly mode (otherwise it adds/removes imports by Go's rules, not Gno's)")
-			c.Check("print-path", f.Name+" Comments", s.Pos(), opts["Comments"] == "true", "go/imports must keep comments")
-			// the result returned
+			c.Check("print-path", name+" FormatOnly", s.Pos(), opts["FormatOnly"] == "true", "go/imports must run in FormatOnly mode (otherwise it adds/removes imports by Go's rules, not Gno's)")
+			c.Check("print-path", name+" Comments", s.Pos(), opts["Comments"] == "true", "go/imports must keep comments")
 			retOK := false
 			if as, isAs := s.Top.(*ast.AssignStmt); isAs && len(as.Lhs) >= 1 {
 				retOK = returnsObj(f, engine.ObjOf(info, as.Lhs[0]))
 			}
-			c.Check("print-path", f.Name+" returns imports.Process output", s.Pos(), retOK, "formatNode must return go/imports' output")
+			if _, isRet := s.Top.(*ast.ReturnStmt); isRet {
+				retOK = true
+			}
+			c.Check("print-path", name+" returns imports.Process output", s.Pos(), retOK, "the formatting function must return go/imports' output")
 		}
 	}
+	c.Floor("print-path", nProc, 1)
 
-	// (5) entry points
-	entries := []string{"FormatImportFromSource", "FormatSource", "FormatPackageFile", "FormatFile"}
-	sinkOK := map[string]bool{
-		c54Pkg + ".(*Processor).formatNode": true, c54Pkg + ".(*Processor).processAndFormat": true, c54Pkg + ".(*Processor).FormatImportFromSource": true,
+	// (5) every function of the package that returns ([]byte, error) returns formatted bytes:
+	// the result of a function that (transitively) returns the formatter's output
+	returnsBytesErr := func(f *engine.Fn) bool {
+		if f.Obj == nil {
+			return false
+		}
+		res := f.Obj.Type().(*types.Signature).Results()
+		return res.Len() == 2 && res.At(0).Type().String() == "[]byte" && res.At(1).Type().String() == "error"
+	}
+	good := map[*engine.Fn]bool{}
+	for f := range formatters {
+		good[f] = true
 	}
 	nE := 0
-	for _, e := range append(entries, "processAndFormat") {
-		f := c.MustFunc(c54Pkg + ".(*Processor)." + e)
-		if f == nil {
-			continue
+	var pending []*engine.Fn
+	for _, f := range fns {
+		if f.Decl != nil && returnsBytesErr(f) && !formatters[f] {
+			pending = append(pending, f)
+		}
+	}
+	verdict := map[*engine.Fn]string{}
+	for round := 0; round < 6; round++ {
+		for _, f := range pending {
+			if good[f] {
+				continue
+			}
+			why, nOK := "", 0
+			engine.InspectBody(f, func(n ast.Node) {
+				r, ok := n.(*ast.ReturnStmt)
+				if !ok {
+					return
+				}
+				switch len(r.Results) {
+				case 1:
+					call, isCall := ast.Unparen(r.Results[0]).(*ast.CallExpr)
+					var callee *engine.Fn
+					if isCall {
+						callee = p.FnOf(c52CalleeFunc(f.Info(), call))
+					}
+					if callee == nil || !good[callee] {
+						why = "returns `" + engine.ExprString(r.Results[0]) + "`, which is not the formatter's output"
+					} else {
+						nOK++
+					}
+				case 2:
+					if !isNil(r.Results[0]) {
+						why = "returns bytes `" + engine.ExprString(r.Results[0]) + "` that did not come from the formatter"
+					}
+				default:
+					why = "unexpected return shape"
+				}
+			})
+			if why == "" && nOK == 0 {
+				why = "never returns the formatter's output"
+			}
+			verdict[f] = why
+			if why == "" {
+				good[f] = true
+			}
+		}
+	}
+	for _, f := range pending {
+		if !f.Obj.Exported() {
+			continue // private intermediates are judged through the entry points that return them
 		}
 		nE++
-		why := ""
-		nOK := 0
-		engine.InspectBody(f, func(n ast.Node) {
-			r, ok := n.(*ast.ReturnStmt)
-			if !ok {
-				return
-			}
-			switch len(r.Results) {
-			case 1:
-				call, isCall := ast.Unparen(r.Results[0]).(*ast.CallExpr)
-				if !isCall || !sinkOK[ceCallName(f.Info(), call)] {
-					why = "returns `" + engine.ExprString(r.Results[0]) + "` instead of formatNode's output"
-				} else {
-					nOK++
-				}
-			case 2:
-				if !isNil(r.Results[0]) {
-					why = "returns bytes `" + engine.ExprString(r.Results[0]) + "` that did not come from formatNode"
-				}
-			default:
-				why = "unexpected return shape"
-			}
-		})
-		if why == "" && nOK == 0 {
-			why = "no return of formatNode/processAndFormat output"
-		}
-		c.Check("entry-returns", f.Name, f.Pos(), why == "", why)
+		c.Check("entry-returns", f.Name, f.Pos(), good[f], verdict[f])
 	}
-	c.Floor("entry-returns", nE, 5)
-	// processAndFormat passes the same file to cleanup, resolve and formatNode
-	if f := c.MustFunc(c54Pkg + ".(*Processor).processAndFormat"); f != nil {
-		fileParam := paramObj(f, 0)
-		ok := true
-		n := 0
-		for _, s := range f.CallsTo(c54Pkg+".(*Processor).cleanupPreviousImports", c54Pkg+".(*Processor).resolve", c54Pkg+".(*Processor).formatNode", c54Pkg+".collectUnresolved") {
-			n++
-			if len(s.Call.Args) == 0 || engine.ObjOf(f.Info(), s.Call.Args[0]) != fileParam {
-				ok = false
+	c.Floor("entry-returns", nE, 4)
+	// a function that prunes/resolves imports and then formats must do all of it on one and the same file
+	nSame := 0
+	for _, f := range fns {
+		if f.Decl == nil {
+			continue
+		}
+		var objs []types.Object
+		hasFmt := false
+		for _, s := range f.Calls() {
+			callee := p.FnOf(c52CalleeFunc(f.Info(), s.Call))
+			if callee == nil {
+				continue
+			}
+			for _, a := range s.Call.Args {
+				if t := f.Info().TypeOf(a); t != nil && t.String() == "*go/ast.File" {
+					objs = append(objs, engine.ObjOf(f.Info(), a))
+					if good[callee] {
+						hasFmt = true
+					}
+				}
 			}
 		}
-		c.Check("entry-returns", f.Name+" same file", f.Pos(), ok && n == 4, "collectUnresolved, cleanupPreviousImports, resolve and formatNode must all operate on the file that was parsed")
+		if !hasFmt || len(objs) < 2 {
+			continue
+		}
+		nSame++
+		same := true
+		for _, o := range objs {
+			if o == nil || o != objs[0] {
+				same = false
+			}
+		}
+		c.Check("entry-returns", f.Name+" same file", f.Pos(), same, "unresolved-collection, import pruning/resolution and formatting must all operate on the one file that was parsed")
 	}
+	c.Floor("entry-returns(same file)", nSame, 1)
+}
+
+type c54Fact struct {
+	e   ast.Expr
+	pos bool // e holds (true) / does not hold (false) at the site
+	fn  *engine.Fn
+}
+
+// c54FactsDeep is c54Facts for a gate found along a deep site: an atom that is a
+// parameter of a helper on the chain is replaced by the argument passed at the call
+// that entered the helper (evaluated in the caller), so `helper(named, ...)` with
+// `if named {` inside means the same as the inlined test.
+func c54FactsDeep(d engine.DeepSite, gf *engine.Fn, cond ast.Expr, onTrue bool, depth int) []c54Fact {
+	var out []c54Fact
+	for _, f := range c54Facts(gf, cond, onTrue, 2) {
+		f.fn = gf
+		id, isId := ast.Unparen(f.e).(*ast.Ident)
+		if !isId || depth <= 0 {
+			out = append(out, f)
+			continue
+		}
+		obj := gf.Info().ObjectOf(id)
+		// which helper of the chain is gf, and which call entered it
+		var call *ast.CallExpr
+		var caller *engine.Fn
+		for i, h := range d.Chain {
+			if h != gf.Root() {
+				continue
+			}
+			if i == 0 {
+				call, caller = d.Outer.Call, d.Outer.Fn
+			} else {
+				prev := d.Chain[i-1]
+				for _, s := range prev.Calls() {
+					if fo, _ := s.Callee.(*types.Func); fo != nil && prev.Prog.FnOf(fo) == h {
+						call, caller = s.Call, prev
+					}
+				}
+			}
+		}
+		replaced := false
+		if call != nil {
+			for k := 0; ; k++ {
+				po := paramObj(gf.Root(), k)
+				if po == nil {
+					break
+				}
+				if po == obj && k < len(call.Args) {
+					out = append(out, c54FactsDeep(d, caller, call.Args[k], f.pos, depth-1)...)
+					replaced = true
+				}
+			}
+		}
+		if !replaced {
+			out = append(out, f)
+		}
+	}
+	return out
+}
+
+// c54Facts splits a gate into atomic facts holding at the gated site: conjuncts on
+// the true side, disjuncts on the false side, negations folded into polarity,
+// single-definition boolean locals replaced by their defining expression.
+func c54Facts(f *engine.Fn, cond ast.Expr, onTrue bool, depth int) []c54Fact {
+	cond = ast.Unparen(cond)
+	if u, ok := cond.(*ast.UnaryExpr); ok && u.Op == token.NOT {
+		return c54Facts(f, u.X, !onTrue, depth)
+	}
+	if b, ok := cond.(*ast.BinaryExpr); ok {
+		if (b.Op == token.LAND && onTrue) || (b.Op == token.LOR && !onTrue) {
+			return append(c54Facts(f, b.X, onTrue, depth), c54Facts(f, b.Y, onTrue, depth)...)
+		}
+	}
+	if id, ok := cond.(*ast.Ident); ok && depth > 0 {
+		if def := ceSingleDef(f, f.Info().ObjectOf(id)); def != nil {
+			if _, isIdx := ast.Unparen(def).(*ast.IndexExpr); !isIdx {
+				return c54Facts(f, def, onTrue, depth-1)
+			}
+		}
+	}
+	return []c54Fact{{e: cond, pos: onTrue, fn: f}}
+}
+
+// c54IsMapLookupOK: e is the `ok` of `_, ok := m[k]` where m is a map keyed by
+// identifier name (the unresolved set, map[string]map[string]bool).
+func c54IsMapLookupOK(f *engine.Fn, e ast.Expr) bool {
+	id, ok := ast.Unparen(e).(*ast.Ident)
+	if !ok {
+		return false
+	}
+	info := f.Info()
+	obj := info.ObjectOf(id)
+	found := false
+	ast.Inspect(f.Root().Body, func(n ast.Node) bool {
+		as, ok := n.(*ast.AssignStmt)
+		if !ok || len(as.Lhs) != 2 || len(as.Rhs) != 1 || engine.ObjOf(info, as.Lhs[1]) != obj {
+			return true
+		}
+		if ix, ok := ast.Unparen(as.Rhs[0]).(*ast.IndexExpr); ok {
+			if t := info.TypeOf(ix.X); t != nil && t.Underlying().String() == "map[string]map[string]bool" {
+				found = true
+			}
+		}
+		return true
+	})
+	return found
+}
+
+// c54IsProcessorFset: e denotes the Processor's FileSet field (directly or through
+// a single-definition local), or a *token.FileSet parameter handed down by a caller.
+func c54IsProcessorFset(p *engine.Prog, f *engine.Fn, e ast.Expr) bool {
+	info := f.Info()
+	e = ast.Unparen(e)
+	if id, ok := e.(*ast.Ident); ok {
+		o := info.ObjectOf(id)
+		if def := ceSingleDef(f, o); def != nil {
+			return c54IsProcessorFset(p, f, def)
+		}
+		for k := 0; ; k++ {
+			po := paramObj(f.Root(), k)
+			if po == nil {
+				break
+			}
+			if po == o {
+				return true
+			}
+		}
+		return false
+	}
+	se, ok := e.(*ast.SelectorExpr)
+	if !ok {
+		return false
+	}
+	v, _ := info.Uses[se.Sel].(*types.Var)
+	return v != nil && v == p.Field(c54Pkg+".Processor.fset")
+}
+
+// c54Resolve follows an expression to the composite literal it denotes: &lit,
+// single-definition local, package-level variable initialiser, or a package
+// function whose single return statement returns one.
+func c54Resolve(p *engine.Prog, f *engine.Fn, e ast.Expr, depth int) ast.Node {
+	e = ast.Unparen(e)
+	if depth <= 0 {
+		return e
+	}
+	switch x := e.(type) {
+	case *ast.UnaryExpr:
+		if x.Op == token.AND {
+			return c54Resolve(p, f, x.X, depth)
+		}
+	case *ast.CompositeLit:
+		return x
+	case *ast.Ident:
+		o := f.Info().ObjectOf(x)
+		if def := ceSingleDef(f, o); def != nil {
+			return c54Resolve(p, f, def, depth-1)
+		}
+		if v, ok := o.(*types.Var); ok && v.Pkg() != nil && v.Parent() == v.Pkg().Scope() {
+			for _, pk := range p.Pkgs {
+				if pk.Types != v.Pkg() {
+					continue
+				}
+				for _, file := range pk.Syntax {
+					for _, d := range file.Decls {
+						gd, ok := d.(*ast.GenDecl)
+						if !ok {
+							continue
+						}
+						for _, sp := range gd.Specs {
+							if vs, ok := sp.(*ast.ValueSpec); ok {
+								for i, nm := range vs.Names {
+									if pk.TypesInfo.Defs[nm] == v && len(vs.Values) == len(vs.Names) {
+										return c54Resolve(p, &engine.Fn{Prog: p, Pkg: pk, Body: &ast.BlockStmt{}}, vs.Values[i], depth-1)
+									}
+								}
+							}
+						}
+					}
+				}
+			}
+		}
+	case *ast.CallExpr:
+		if g := p.FnOf(c52CalleeFunc(f.Info(), x)); g != nil {
+			var rets []*ast.ReturnStmt
+			engine.InspectBody(g, func(n ast.Node) {
+				if r, ok := n.(*ast.ReturnStmt); ok {
+					rets = append(rets, r)
+				}
+			})
+			if len(rets) == 1 && len(rets[0].Results) == 1 {
+				return c54Resolve(p, g, rets[0].Results[0], depth-1)
+			}
+		}
+	}
+	return e
+}
+
+// ceBoolConstAnywhere evaluates a boolean constant expression using whichever
+// loaded package's type information knows the node.
+func ceBoolConstAnywhere(p *engine.Prog, e ast.Expr) (string, bool) {
+	for _, pk := range p.Pkgs {
+		if tv, ok := pk.TypesInfo.Types[e]; ok && tv.Value != nil {
+			return tv.Value.ExactString(), true
+		}
+	}
+	return "", false
+}
+
+func ceConstInt(k *types.Const) (int64, bool) {
+	return ceConstantInt64(k)
 }
